@@ -1,0 +1,17 @@
+//go:build verif
+
+// Contracts for the contract-based verification in /verif (comment-only file).
+
+package stun
+
+//@ func Response
+//@   trusted
+//@   modifies nothing
+//@   ensures len(result) <= 44
+
+//@ func Is
+//@   props C08
+//@   modifies nothing
+//@ func ParseBindingRequest
+//@   trusted
+//@   modifies nothing
